@@ -50,6 +50,26 @@ def skeletons():
     P.append(("recursion:dcall-self", nv.push_int(0) + b"\x6e"))
     body = nv.op("DUP") + nv.syscall("System.Runtime.Serialize") + nv.op("DROP")
     P.append(("loop:serialize-growth", nv.push_int(1) + nv.push_int(1) + nv.op("PACK") + body + b"\x62" + (-len(body) & 0xFFFF).to_bytes(2, "little")))
+    # exponential growth: every round doubles the size of a value (resource guards: MAX_CLONE_LENGTH for struct copies,
+    # item size for byte strings, stack / array size limits); the model's statement: FAULT or HALT within the budget
+    emptystruct = nv.push_int(0) + nv.op("NEWSTRUCT")
+    dbl = nv.op("DUP", "DUP", "APPEND")                       # s.append(copy of s): APPEND stores a deep copy of a struct
+    for n in (8, 12, 16, 24, 40):
+        P.append(("growth:struct-self-append-leafless:%d" % n, emptystruct + dbl * n))
+        P.append(("growth:struct-self-append-leaf:%d" % n, nv.push_int(1) + nv.op("NEWSTRUCT") + dbl * n))
+        # s = struct[s, s] through SETITEM (clones the value twice per round)
+        rnd = nv.push_int(2) + nv.op("NEWSTRUCT") + nv.op("DUP") + nv.push_int(0) + nv.push_int(3) + nv.op("PICK", "SETITEM") + \
+            nv.op("DUP") + nv.push_int(1) + nv.push_int(3) + nv.op("PICK", "SETITEM") + nv.op("SWAP", "DROP")
+        P.append(("growth:struct-pair-setitem:%d" % n, emptystruct + rnd * n))
+        # the growing struct is also copied into an array element and a map value every round
+        sink_copy = nv.op("DUP", "DUP", "APPEND") + nv.push_int(2) + nv.op("PICK") + nv.push_int(0) + nv.push_int(2) + nv.op("PICK", "SETITEM") + \
+            nv.push_int(1) + nv.op("PICK") + nv.push_int(0) + nv.push_int(2) + nv.op("PICK", "SETITEM")
+        P.append(("growth:struct-into-array-and-map:%d" % n, nv.op("NEWMAP") + nv.push_int(1) + nv.op("NEWARRAY") + emptystruct + sink_copy * n))
+        P.append(("growth:array-self-append:%d" % n, nv.push_int(0) + nv.op("NEWARRAY") + dbl * n))
+        P.append(("growth:cat-doubling:%d" % n, nv.push_bytes(b"ab") + nv.op("DUP", "CAT") * n))
+        P.append(("growth:pack-unpack:%d" % n, nv.push_int(1) + nv.push_int(1) + nv.op("PACK") + (nv.op("DUP", "UNPACK", "DROP") + nv.op("DUP") + nv.push_int(3) + nv.op("PACK")) * n))
+    P.append(("growth:struct-self-append-leafless:loop", emptystruct + dbl + b"\x62\xfd\xff"))
+    P.append(("growth:cat-doubling:loop", nv.push_bytes(b"ab") + nv.op("DUP", "CAT") + b"\x62\xfe\xff"))
     for kind in ("arr", "str"):
         for n in (9, 10, 11, 12, 1023, 1024, 1025, 1100):
             for cons in ("ser", "native", "notify", "equal", "appendstruct", "unpack", "put"):
@@ -164,7 +184,9 @@ def run(ctx):
                 modes = (False, True) if c in ("ser", "native", "notify", "serdeser") else (False,)
                 add("heap:" + c, cls, nv.program(r["cells"], c), pred, modes=modes, meta=nv.heap_text(r))
         for name, code in skeletons():
-            add("skeleton", name, code, "fast" if not name.startswith("nest") or ":native" not in name else "fast")
+            # the long growth programs run one per child (time / address-space caps): an unguarded doubling kills the process
+            big_growth = name.startswith("growth:") and name.rsplit(":", 1)[1] in ("24", "40", "loop")
+            add("skeleton", name, code, "single" if big_growth else "fast")
         for (w, d) in ((4, 4), (16, 3), (16, 4)):
             for c in ("native", "ser", "notify", "equal"):
                 add("dag:" + c, "shared-subarray-dag:w%d-d%d" % (w, d), dag(w, d) + nv.CONSUMERS[c]())
